@@ -188,7 +188,12 @@ struct Gen {
     else if (fr == 13) {
       body = body_bytes(); size_t n = body.size(); std::string N = std::to_string(n);
       switch (s.below(14)) {
-        case 0: fl.push_back("Content-Length: " + N); fl.push_back("Content-Length: " + N); break;
+        case 0: {   // two fields: identical (valid), or a well-formed first one and a later one that only shares its numeric prefix (must be refused).
+          // The variant is derived from the hash of the earlier choices: no extra input is consumed, saved inputs decode as before.
+          static const char *SUF[] = {"", "", "", ", 11", "x", ".9", " 6", ",", ";q=1"};
+          unsigned v = (unsigned)(s.h >> 17) % 9; fl.push_back("Content-Length: " + N); fl.push_back("Content-Length: " + N + SUF[v]);
+          if (v >= 3 && ((s.h >> 23) & 1)) std::swap(fl[fl.size() - 1], fl[fl.size() - 2]);
+          break; }
         case 1: if (avoid(K_DUPCL)) { fl.push_back("Content-Length: " + N); break; } fl.push_back("Content-Length: " + N); fl.push_back("Content-Length: " + std::to_string(n + 1 + s.below(40))); if (s.flag()) std::swap(fl[0], fl[1]); break;
         case 2: fl.push_back("Content-Length: " + N + ", " + N); break;
         case 3: fl.push_back("Content-Length: " + N + ", " + std::to_string(n + 1)); break;
